@@ -1,5 +1,6 @@
 import LyModel.Val.Model
 import LyModel.XsdRe.Parse
+import LyModel.Generated.ValExt
 /-!
 # `union` and string `pattern` restrictions (component `Val`, property C03)
 
@@ -167,19 +168,19 @@ def sortU (ms : List MTy) (a b : UVal) : Int :=
     4-byte little-endian index + the member's LYB value -/
 def lybU (ms : List MTy) (u : UVal) : Bytes :=
   match ms[u.idx]? with
-  | some m => leBytes 4 u.idx ++ m.lyb u.val
+  | some m => leBytes Generated.unionIdxSize u.idx ++ m.lyb u.val
   | none => []
 
 /-- `lyplg_type_store_union` with `LY_VALUE_LYB`: `lyb_union_validate` (size ≥ 4, index < count), then the member named by
     the index stores the rest in LYB format — no other member is tried -/
 def unlybU (ms : List MTy) (b : Bytes) : Except MErr UVal :=
-  if b.length < 4 then .error (.val .LybSize)
+  if b.length < Generated.unionIdxSize then .error (.val .LybSize)
   else
-    let idx := ofLe (b.take 4)
+    let idx := ofLe (b.take Generated.unionIdxSize)
     match ms[idx]? with
     | none => .error (.val .LybSize)
     | some m =>
-      match m.unlyb (b.drop 4) with
+      match m.unlyb (b.drop Generated.unionIdxSize) with
       | .ok v => .ok ⟨idx, v⟩
       | .error e => .error e
 
